@@ -12,13 +12,16 @@ THEOREMS = ["C01_leaf_suppressed", "C01_floor_generic", "C01_floor_unique", "C01
             "C01_leaf_backed_generic", "C01_leaf_backed_unique", "C01_leaf_values_inside", "C18_tree_invariant", "C18_branch_entities_generic",
             # whole harvests: provenance of every range (refined buckets included) and backing of the node it comes from
             "harvest_all", "C10_bucket_ranges", "forest_subsFrom", "reach_inForest", "C01_bucket_ranges_in_forest",
-            "C01_node_backed_generic", "C01_node_backed_unique", "C01_node_values_inside", "microdata_cells", "string_cell_origin", "analyzeConvertors_string", "C01_sample_strings"]
+            "C01_node_backed_generic", "C01_node_backed_unique", "C01_node_values_inside", "microdata_cells", "string_cell_origin", "analyzeConvertors_string", "C01_sample_strings",
+            # whole synthetic tables, any cluster plan: stitching and patching move cells only under their own column
+            "locateColumns_loc", "mergeRow_ok", "buildTable_cells", "materializeTree_stringBacked", "C01_table_strings"]
 PARTIAL = ["buckets: every range of every bucket of every harvest of a forest tree (leaf, branch and refined buckets) is proved to be the released "
            "range, for the same column, of a node of a forest tree that is a branch or a filter-passing leaf (C01_bucket_ranges_in_forest), and "
            "such a node holds >= low_threshold distinct entities per id column whose non-folded rows have their values inside that range "
            "(C01_node_backed_*, C01_node_values_inside); over exact arithmetic, hashes and noise uninterpreted, low_threshold >= 0",
-           "synthetic tables and blobs: that microdata and stitching only re-arrange bucket ranges is C10/C11/C12; the composition into one Lean "
-           "theorem about sample() is not done; verbatim strings: C01_safe_values_backed + C01_verbatim_only_safe; the oracle checks every released "
+           "synthetic tables: composed into one Lean theorem about build_table for any cluster plan (C01_table_strings: every string cell of the assembled "
+           "table, under its own column, is a mask, the code of a single-point range released for that column by a releasable node, or a safe code); "
+           "blobs only through the same per-cluster theorems; verbatim strings: C01_safe_values_backed + C01_verbatim_only_safe; the oracle checks every released "
            "range of every real bucket and every verbatim string of every real synthetic table"]
 ASSUMPTIONS = []
 TRUSTED = ["generators of tree_streams/e2e_streams (rare strings, one entity owning many rows, several id columns, null ids, thresholds in unusual order)"]
